@@ -3468,7 +3468,10 @@ struct IceGatherer {
     local_candidates: Arc<parking_lot::Mutex<Vec<IceCandidate>>>,
     sockets: Arc<parking_lot::Mutex<Vec<Arc<UdpSocket>>>>,
     tcp_listeners: Arc<parking_lot::Mutex<Vec<Arc<TcpListener>>>>,
+    #[cfg(not(rustrtc_verif))]
     tcp_streams: Arc<parking_lot::Mutex<HashMap<SocketAddr, IceSocketWrapper>>>,
+    #[cfg(rustrtc_verif)]
+    tcp_streams: Arc<parking_lot::Mutex<crate::verif_hooks::SeededHashMap<SocketAddr, IceSocketWrapper>>>,
     shared_tcp_regs: Arc<parking_lot::Mutex<Vec<shared_tcp::SharedTcpRegistration>>>,
     shared_udp_regs: Arc<parking_lot::Mutex<Vec<shared_udp::SharedUdpRegistration>>>,
     /// The shared UDP mux socket wrapper (when `ice_udp_mux` is enabled).
@@ -3493,7 +3496,10 @@ impl IceGatherer {
             local_candidates: Arc::new(parking_lot::Mutex::new(Vec::new())),
             sockets: Arc::new(parking_lot::Mutex::new(Vec::new())),
             tcp_listeners: Arc::new(parking_lot::Mutex::new(Vec::new())),
+            #[cfg(not(rustrtc_verif))]
             tcp_streams: Arc::new(parking_lot::Mutex::new(HashMap::new())),
+            #[cfg(rustrtc_verif)]
+            tcp_streams: Arc::new(parking_lot::Mutex::new(Default::default())),
             shared_tcp_regs: Arc::new(parking_lot::Mutex::new(Vec::new())),
             shared_udp_regs: Arc::new(parking_lot::Mutex::new(Vec::new())),
             shared_udp_socket: Arc::new(parking_lot::Mutex::new(None)),
